@@ -359,6 +359,10 @@ class Radar:
                 fcntl.ioctl(self.conn.fileno(), termios.TIOCOUTQ, buf)
                 if struct.unpack('i', buf)[0] == 0:
                     break
+                if self.exited():
+                    # the subject died with our bytes unread: nothing will ever acknowledge them
+                    self.conn_broken = True
+                    return False
                 if time.monotonic() > end:
                     raise Machinery('feed bytes not acknowledged by the subject TCP within %.0f s' % T_SYNC)
                 time.sleep(0.0005)
